@@ -411,9 +411,13 @@ func (w *World) genClause(segOK bool) *J {
 	if r.P(0.7) && nv == 0 {
 		nv = 1
 	}
+	long := false
+	if r.P(0.015) { // more clause values than any pre-allocation or cap; only the last one is likely to match
+		nv, long = []int{101, 130, 257}[r.Intn(3)], true
+	}
 	for i := 0; i < nv; i++ {
 		var v *J
-		if r.P(0.45) {
+		if (!long && r.P(0.45)) || (long && i == nv-1) {
 			v = w.ctxValueFor(effKind, attr, path)
 		}
 		if (attr == "kind" || attr == "/kind") && r.P(0.8) { // real kinds, the pseudo-kind "multi", and fragments of both for the string operators
@@ -582,10 +586,13 @@ func (w *World) genRollout(flagKey, salt string, nvars int) *J {
 		if kind != "" && r.P(0.5) {
 			bucketBy = r.Pick([]string{"/email", "/nested/a/b", "/age", "/name"})
 		}
-		if r.P(p.PMalformed) {
+		if r.P(math.Max(p.PMalformed, 0.05)) { // an invalid reference: an error for a rollout, ignored by an experiment
 			bucketBy = r.Pick([]string{"//", "/a~2", "/"})
 			if kind == "" && r.P(0.7) { // only a reference (contextKind present) can be syntactically invalid
 				kind = docKind(r)
+				if len(w.ctx.Singles) > 0 && r.P(0.6) {
+					kind = w.ctx.Singles[r.Intn(len(w.ctx.Singles))].Kind
+				}
 				ro.Set("contextKind", JStr(kind))
 			}
 		}
@@ -596,7 +603,33 @@ func (w *World) genRollout(flagKey, salt string, nvars int) *J {
 		if isExp {
 			bb = ""
 		}
-		if b, ok := w.bucketOf(isExp, seed, kind, flagKey, bb, salt); ok {
+		onGrid := int64(-1)
+		if r.P(0.3) {
+			// a seed for which the context's bucket is exactly k/100000 in single precision: there the split points accumulated
+			// in single precision and the scaled integer sum can differ by one unit in the last place
+			start := int64(r.Intn(1000000))
+			for s := start; s < start+800; s++ {
+				sv := s
+				b, ok := w.bucketOf(isExp, &sv, kind, flagKey, bb, salt)
+				if !ok {
+					break
+				}
+				k := math.Round(float64(b) * 100000)
+				if k > 2 && k < 99998 && float32(k)/100000 == b {
+					seed, onGrid = &sv, int64(k)
+					break
+				}
+			}
+		}
+		if onGrid > 0 {
+			y := 1 + int64(r.Intn(int(onGrid)-1))
+			if r.P(0.5) {
+				weights = []int64{y, onGrid - y, 100000 - onGrid}
+			} else {
+				y2 := int64(r.Intn(int(onGrid-y) + 1))
+				weights = []int64{y, y2, onGrid - y - y2, 100000 - onGrid}
+			}
+		} else if b, ok := w.bucketOf(isExp, seed, kind, flagKey, bb, salt); ok {
 			x := int64(float64(b) * 100000)
 			x += int64(r.Range(-1, 1))
 			if x < 0 {
@@ -624,7 +657,11 @@ func (w *World) genRollout(flagKey, salt string, nvars int) *J {
 	}
 	vars := &J{K: 'a', A: []*J{}}
 	for _, wt := range weights {
-		v := JObj(KV{"variation", JInt(int64(r.Intn(nvars + 1)))})
+		bv := int64(r.Intn(nvars + 1))
+		if r.P(0.03) {
+			bv = -1
+		}
+		v := JObj(KV{"variation", JInt(bv)})
 		if wt != 0 || r.P(0.7) { // a zero weight may simply be absent
 			v.Set("weight", JInt(wt))
 		}
@@ -692,7 +729,11 @@ func (w *World) genTargets(n int, withKind bool, nvars int) *J {
 				vals = JArr()
 			}
 		}
-		t.Set("values", vals).Set("variation", JInt(int64(r.Intn(nvars+1))))
+		tv := int64(r.Intn(nvars + 1))
+		if r.P(0.04) { // a negative index is as malformed as one past the end: the target still decides, with MALFORMED_FLAG
+			tv = r.Pick2([]int64{-1, -1, -2, math.MinInt64})
+		}
+		t.Set("values", vals).Set("variation", JInt(tv))
 		arr.A = append(arr.A, t)
 	}
 	return arr
@@ -1330,6 +1371,9 @@ func (r *Rng) Perm(n int) []int {
 func (w *World) addChain(c *EvalCase) {
 	r := w.r
 	depth := r.Range(1, w.p.Chain)
+	if w.p.Chain < 30 && r.P(0.05) { // every profile with chains sees a few that are deeper than any preallocated path
+		depth = r.Range(22, 34)
+	}
 	mode := r.Intn(4) // 0 plain chain, 1 diamond at every level, 2 cycle back to the top, 3 cycle in the middle
 	mk := func(i int) string { return fmt.Sprintf("c%d", i) }
 	// flags: top -> c0 -> c1 ... each requires variation 0 of the next; all serve variation 0 via fallthrough
@@ -1366,7 +1410,11 @@ func (w *World) addChain(c *EvalCase) {
 		} else if mode == 2 {
 			pre.A = append(pre.A, JObj(KV{"key", JStr(c.Top.Key)}, KV{"variation", JInt(0)}))
 		} else if mode == 3 {
-			pre.A = append(pre.A, JObj(KV{"key", JStr(mk(r.Intn(depth)))}, KV{"variation", JInt(0)}))
+			back := r.Intn(depth)
+			if r.P(0.5) { // a short cycle at the far end of the chain
+				back = depth - 1 - r.Intn(min(depth, 3))
+			}
+			pre.A = append(pre.A, JObj(KV{"key", JStr(mk(back))}, KV{"variation", JInt(0)}))
 		}
 		f.Set("prerequisites", pre).Set("fallthrough", JObj(KV{"variation", JInt(0)})).Set("offVariation", JInt(1)).
 			Set("variations", JArr(JStr("x"), JStr("y"))).Set("salt", JStr("")).Set("version", JInt(int64(i)))
